@@ -68,6 +68,11 @@ class LawsHistory(Leg):
             prev_n = len(snap["kind"])
             if op[0] in ("SL", "SA", "NU", "NL") and r["out"][0] == "raise":
                 return [f"call {i} {op} raised {r['out'][1]}"]
+            # "every such assignment succeeds": the pair named by the call is bound afterwards
+            if op[0] == "SL" and snap["ulaws"][op[1]] != op[2]:
+                return [f"call {i} {op}: after `u.laws = L` universe {op[1]} has laws {snap['ulaws'][op[1]]}, not {op[2]}"]
+            if op[0] == "SA" and snap["lapp"][op[1]] != op[2]:
+                return [f"call {i} {op}: after `L.applies_to = u` law set {op[1]} applies to {snap['lapp'][op[1]]}, not {op[2]}"]
             m = binding_violations(snap)
             if m:
                 return [f"after call {i} {op}: " + m[0]] + m[1:3]
